@@ -183,9 +183,13 @@ def arm (c : Ctx) : State → Kind → Arm
       else .run [.stopCrt, .sendOpen, .setState openSent] true
   | connect, tcpConnectionFails =>
       if c.dopRunning then .todo else .run [.stopCrt, .setState idle] true
-  | connect, bgpOpenDelay _ _ => .todo
+  | connect, bgpOpenDelay asAllowed apOk =>      -- same arm as Active (after the repair of F23b)
+      openTail c asAllowed apOk [.stopCrt, .stopDop]
+        [.sendOpen, .negotiate, .sendKeepalive, .startKa, .startHold, .setState openConfirm]
   | connect, bgpHeaderErr | connect, bgpOpenMsgErr => .todo
-  | connect, notifMsgVerErr => .todo
+  | connect, notifMsgVerErr =>                   -- same arm as Active
+      if c.dopRunning then .run [.stopCrt, .stopDop, .setState idle] true
+      else .run [.stopCrt, .incCounter, .setState idle] true
   | connect, holdTimerExpires | connect, keepaliveTimerExpires | connect, bgpOpen _ _
   | connect, notifMsg | connect, keepaliveMsg | connect, updateMsg | connect, updateMsgErr =>
       .run [.stopCrt, .stopDop, .incCounter, .setState idle] true
@@ -243,7 +247,8 @@ def arm (c : Ctx) : State → Kind → Arm
   | openConfirm, tcpConnectionFails | openConfirm, notifMsg =>
       .run [.stopCrt, .dropConn, .incCounter, .setState idle] true
   | openConfirm, notifMsgVerErr => .run [.stopCrt, .dropConn, .setState idle] true
-  | openConfirm, bgpOpen _ _ => .todo
+  | openConfirm, bgpOpen _ _ =>                  -- joins the FSM-error arm (after the repair of F23)
+      .run [.disconnect (.fsm 2), .stopCrt, .incCounter, .setState idle] true
   | openConfirm, bgpHeaderErr | openConfirm, bgpOpenMsgErr =>
       .run [.stopCrt, .incCounter, .setState idle] true
   | openConfirm, keepaliveMsg => .run [.resetHold, .setState established] true
@@ -259,7 +264,8 @@ def arm (c : Ctx) : State → Kind → Arm
       .run [.disconnect .holdTimerExpired, .stopCrt, .incCounter, .setState idle] true
   | established, keepaliveTimerExpires => .run [.sendKeepalive] true
   | established, tcpCrAcked | established, tcpConnectionConfirmed => .todo
-  | established, bgpOpen _ _ => .todo
+  | established, bgpOpen _ _ =>                  -- joins the FSM-error arm (after the repair of F23)
+      .run [.disconnect (.fsm 3), .stopCrt, .incCounter, .setState idle] true
   | established, notifMsgVerErr | established, notifMsg | established, tcpConnectionFails =>
       .run [.stopCrt, .dropConn, .incCounter, .setState idle] true
   | established, keepaliveMsg => .run [.resetHold] true
